@@ -507,7 +507,7 @@ def gen(rng, tier):
           "crash": {"ks": [], "second": []}}
     r2 = random.Random(sc["seed"])
     max_all = MAX_ALL if tier == "quick" else 400
-    if rng.random() < 0.2:
+    if rng.random() < 0.3:
         # bystander stores: 1-2 further, independent LSMTree+WAL instances in the same simulation, each with its own keys and
         # writers (often a longer history than the primary's, started earlier); each loses power and is recovered at 1-2 delivery
         # indices inside the primary's activity while the primary keeps running
@@ -528,7 +528,7 @@ def gen(rng, tier):
         first_primary = next((i + 1 for i, p_ in enumerate(w0.phase_log) if p_[2] > 0), 1)  # primary WAL non-empty
         for sd in sc["side"]:
             lo = min(L0, first_primary)
-            sd["outages"] = sorted(set(r2.sample(range(lo, L0 + 1), min(rng.choice([1, 1, 2]), L0 + 1 - lo)))) if L0 >= 1 else []
+            sd["outages"] = sorted(set(r2.sample(range(lo, L0 + 1), min(rng.choice([1, 2, 3]), L0 + 1 - lo)))) if L0 >= 1 else []
     w, st = baseline(sc)
     ks = choose_crash_points(w.phase_log, r2, max_all)
     sc["crash"]["ks"] = ks
